@@ -5,10 +5,58 @@ from common import quiet
 
 
 def ls(loc):
+    """canonical listing of a crop directory: batch / result ids, the info file, and -- only when there are any --
+    `x`: names in batches/ and results/ that the library's own progress counters would see (the `xyz-batch-*` /
+    `xyz-result-*` patterns, or anything a plain directory listing counts that is not hidden) without being a
+    canonical crop file.  The model never predicts an `x` entry."""
     if not os.path.isdir(loc): return None
-    b = sorted(int(re.findall(r'xyz-batch-(\d+)\.jbdmp$', f)[0]) for f in glob.glob(os.path.join(loc, 'batches', 'xyz-batch-*.jbdmp')))
-    r = sorted(int(re.findall(r'xyz-result-(\d+)\.jbdmp$', f)[0]) for f in glob.glob(os.path.join(loc, 'results', 'xyz-result-*.jbdmp')))
-    return {'b': b, 'r': r, 'info': os.path.exists(os.path.join(loc, 'xyz-settings.jbdmp'))}
+    b, r, x = [], [], []
+    for sub, pat, acc in (('batches', r'xyz-batch-(\d+)\.jbdmp$', b), ('results', r'xyz-result-(\d+)\.jbdmp$', r)):
+        d = os.path.join(loc, sub)
+        if not os.path.isdir(d): continue
+        for name in sorted(os.listdir(d)):
+            m = re.match(pat, name)
+            if m: acc.append(int(m.group(1)))
+            elif not name.startswith('.'): x.append(sub + '/' + re.sub(r'[0-9a-f]{8,}', 'H', name))
+    out = {'b': sorted(b), 'r': sorted(r), 'info': os.path.exists(os.path.join(loc, 'xyz-settings.jbdmp'))}
+    if x: out['x'] = x
+    return out
+
+
+def strand_temporary(loc, batch_id):
+    """What a grower killed in the middle of publishing result `batch_id` leaves behind, *named by the library
+    itself*: the library's writer is run with the final move made to fail.  Returns the names left in results/."""
+    from xyzpy.gen import cropping
+    os.makedirs(os.path.join(loc, 'results'), exist_ok=True)
+    before = set(os.listdir(os.path.join(loc, 'results')))
+    target = os.path.join(loc, 'results', 'xyz-result-%d.jbdmp' % batch_id)
+    had = os.path.exists(target)
+    keep = open(target, 'rb').read() if had else None
+
+    class _Killed(BaseException):
+        pass
+
+    def boom(*a, **k):
+        raise _Killed()
+    saved = {}
+    for mod, name in ((cropping.os, 'replace'), (cropping.os, 'rename'), (getattr(cropping, 'shutil', None), 'move')):
+        if mod is not None and hasattr(mod, name):
+            saved[(mod, name)] = getattr(mod, name); setattr(mod, name, boom)
+    # a killed process runs no clean-up handlers either
+    for name in ('remove', 'unlink'):
+        saved[(cropping.os, name)] = getattr(cropping.os, name); setattr(cropping.os, name, lambda *a, **k: None)
+    try:
+        try:
+            cropping.write_to_disk(('partial',), target)
+        except _Killed:
+            pass
+    finally:
+        for (mod, name), f in saved.items(): setattr(mod, name, f)
+    if had:
+        with open(target, 'wb') as fh: fh.write(keep)          # an in-place writer would have clobbered it: put it back
+    elif os.path.exists(target):
+        os.remove(target)                                       # ... or created it: the kill happened before it was complete
+    return sorted(set(os.listdir(os.path.join(loc, 'results'))) - before)
 
 
 def read_batches(loc, sw):
@@ -126,9 +174,7 @@ def run_history(h, ctx, farmer=None):
                             with open(p, 'wb') as fh: fh.write(b'\x80garbage')
                     elif k == 'strandtmp':
                         # what a grower killed mid-write leaves behind: a private temporary next to the results
-                        os.makedirs(os.path.join(loc, 'results'), exist_ok=True)
-                        with open(os.path.join(loc, 'results', '.tmp-deadbeef-xyz-result-%d.jbdmp' % op['id']), 'wb') as fh:
-                            fh.write(b'\x80partial')
+                        strand_temporary(loc, op['id'])
                     elif k == 'checkbad':
                         o = {'bad': sorted(int(x) for x in crop.check_bad())}
                     elif k in ('query', 'stalequery'):
